@@ -18,6 +18,7 @@ import AITB.Props.C18e
 import AITB.Props.C18f
 import AITB.Gen.Dispatch
 namespace AITB.Cassandra
+variable {fl : Flags}
 
 /-! ## facts about the source, as extracted (re-checked whenever the source changes) -/
 
@@ -62,7 +63,7 @@ theorem parser_total (fl : Flags) (k : Kind) (text : Str) :
 /-! ## parser_refines_spec -/
 
 theorem parse_unfold (fl : Flags) (k : Kind) (text : Str) (p : Pre) (lines : List Str)
-    (hpre : parseModelInfo (splitLines text) {} [] = .ok (p, lines))
+    (hpre : parseModelInfo fl (splitLines text) {} [] = .ok (p, lines))
     (hsz : (p.S == 0 || p.A == 0 || (k == .pomdp && p.O == 0)) = false)
     (hfit : (fl.sizeGuard && !(extentFits p.S p.A p.S && (k == .mdp || extentFits p.S p.A p.O))) = false) :
     parse fl k text = (run fl k p lines 0 {}).map (fun st => ⟨p, st⟩) := by
@@ -76,10 +77,10 @@ theorem parse_unfold (fl : Flags) (k : Kind) (text : Str) (p : Pre) (lines : Lis
     the format defines: the value of the last statement covering the cell, 0 if none does.
     Covers wildcards, names vs numbers (`Resolves`), entry / row / next-line row / matrix forms, any order. -/
 theorem parser_refines_spec (fl : Flags) (k : Kind) (text : Str) (p : Pre) (lines : List Str) (sT sR sW : List Stmt)
-    (hpre : parseModelInfo (splitLines text) {} [] = .ok (p, lines))
+    (hpre : parseModelInfo fl (splitLines text) {} [] = .ok (p, lines))
     (hsz : (p.S == 0 || p.A == 0 || (k == .pomdp && p.O == 0)) = false)
     (hfit : (fl.sizeGuard && !(extentFits p.S p.A p.S && (k == .mdp || extentFits p.S p.A p.O))) = false)
-    (hfile : FileDenotes k p lines 0 sT sR sW) :
+    (hfile : FileDenotes fl k p lines 0 sT sR sW) :
     ∃ r, parse fl k text = .ok r ∧ r.pre = p ∧ ∀ d1 a d3,
       tableAt r.st.wT d1 a d3 = specAt sT p.S p.A p.S d1 a d3 ∧
       tableAt r.st.wR d1 a d3 = specAt sR p.S p.A p.S d1 a d3 ∧
@@ -95,7 +96,7 @@ theorem parser_refines_spec (fl : Flags) (k : Kind) (text : Str) (p : Pre) (line
 /-! ## parser_rejects -/
 
 theorem parse_ok_inv {fl : Flags} {k : Kind} {text : Str} {r : Parsed} (h : parse fl k text = .ok r) :
-    ∃ lines, parseModelInfo (splitLines text) {} [] = .ok (r.pre, lines) ∧
+    ∃ lines, parseModelInfo fl (splitLines text) {} [] = .ok (r.pre, lines) ∧
       (r.pre.S == 0 || r.pre.A == 0 || (k == .pomdp && r.pre.O == 0)) = false ∧
       (fl.sizeGuard && !(extentFits r.pre.S r.pre.A r.pre.S && (k == .mdp || extentFits r.pre.S r.pre.A r.pre.O))) = false ∧
       run fl k r.pre lines 0 {} = .ok r.st := by
@@ -120,9 +121,9 @@ theorem parse_ok_inv {fl : Flags} {k : Kind} {text : Str} {r : Parsed} (h : pars
     wrong element count in any form, an unknown name, an out-of-range index or an unparsable number is rejected. -/
 theorem parser_accepts_only_wellformed {fl : Flags} (hfl : fl.rowLenThrows = true) {k : Kind} {text : Str} {r : Parsed}
     (h : parse fl k text = .ok r) :
-    ∃ lines sT sR sW, parseModelInfo (splitLines text) {} [] = .ok (r.pre, lines) ∧
+    ∃ lines sT sR sW, parseModelInfo fl (splitLines text) {} [] = .ok (r.pre, lines) ∧
       r.pre.S ≠ 0 ∧ r.pre.A ≠ 0 ∧ (k = .pomdp → r.pre.O ≠ 0) ∧
-      FileDenotes k r.pre lines 0 sT sR sW ∧
+      FileDenotes fl k r.pre lines 0 sT sR sW ∧
       ∀ d1 a d3,
         tableAt r.st.wT d1 a d3 = specAt sT r.pre.S r.pre.A r.pre.S d1 a d3 ∧
         tableAt r.st.wR d1 a d3 = specAt sR r.pre.S r.pre.A r.pre.S d1 a d3 ∧
@@ -141,19 +142,19 @@ theorem parser_accepts_only_wellformed {fl : Flags} (hfl : fl.rowLenThrows = tru
     (exception constructed, not thrown) this text is accepted although its last line is no statement of the grammar
     (three values for two states).  Evaluated by the kernel on the literal (a test of the model, labelled as such). -/
 theorem parser_accepts_malformed_row_counterexample :
-    (parse ⟨false, false, false⟩ .mdp "states: 2\nactions: 1\nT: 0\n1 0\n0 1\nT: 0 : 0 0.5 0.25 0.25\n".toList).toOption.isSome = true ∧
-    (parse ⟨true, false, false⟩ .mdp "states: 2\nactions: 1\nT: 0\n1 0\n0 1\nT: 0 : 0 0.5 0.25 0.25\n".toList).toOption.isSome = false := by
+    (parse ⟨false, false, false, false, false⟩ .mdp "states: 2\nactions: 1\nT: 0\n1 0\n0 1\nT: 0 : 0 0.5 0.25 0.25\n".toList).toOption.isSome = true ∧
+    (parse ⟨true, false, false, false, false⟩ .mdp "states: 2\nactions: 1\nT: 0\n1 0\n0 1\nT: 0 : 0 0.5 0.25 0.25\n".toList).toOption.isSome = false := by
   decide +kernel
 
 /-- the offending line is indeed outside the grammar: no statement is denoted by it -/
 theorem processMatrix_row_length_counterexample :
-    (∃ ws, processMatrix ⟨false, false, false⟩ 2 1 2 [] [] [] "T: 0 : 0 0.5 0.25 0.25".toList [] = .ok (ws, 0)) ∧
-    ¬ ∃ s n, MatrixLine 2 1 2 [] [] [] "T: 0 : 0 0.5 0.25 0.25".toList [] s n := by
+    (∃ ws, processMatrix ⟨false, false, false, false, false⟩ 2 1 2 [] [] [] "T: 0 : 0 0.5 0.25 0.25".toList [] = .ok (ws, 0)) ∧
+    ¬ ∃ s n, MatrixLine fl 2 1 2 [] [] [] "T: 0 : 0 0.5 0.25 0.25".toList [] s n := by
   constructor
-  · rcases h : processMatrix ⟨false, false, false⟩ 2 1 2 [] [] [] "T: 0 : 0 0.5 0.25 0.25".toList [] with e | ⟨ws, n⟩
-    · have : (processMatrix ⟨false, false, false⟩ 2 1 2 [] [] [] "T: 0 : 0 0.5 0.25 0.25".toList []).toOption.isSome = true := by decide +kernel
+  · rcases h : processMatrix ⟨false, false, false, false, false⟩ 2 1 2 [] [] [] "T: 0 : 0 0.5 0.25 0.25".toList [] with e | ⟨ws, n⟩
+    · have : (processMatrix ⟨false, false, false, false, false⟩ 2 1 2 [] [] [] "T: 0 : 0 0.5 0.25 0.25".toList []).toOption.isSome = true := by decide +kernel
       rw [h] at this; cases this
-    · have hn : ((processMatrix ⟨false, false, false⟩ 2 1 2 [] [] [] "T: 0 : 0 0.5 0.25 0.25".toList []).toOption.map (·.2)) = some 0 := by decide +kernel
+    · have hn : ((processMatrix ⟨false, false, false, false, false⟩ 2 1 2 [] [] [] "T: 0 : 0 0.5 0.25 0.25".toList []).toOption.map (·.2)) = some 0 := by decide +kernel
       rw [h] at hn
       have : n = 0 := by simpa [Except.toOption] using hn
       subst this
@@ -169,7 +170,7 @@ theorem processMatrix_row_length_counterexample :
 
 /-- **Rejection, contrapositive form**: a text whose line list is not a well-formed file is rejected with an exception -/
 theorem parser_rejects {fl : Flags} (hfl : fl.rowLenThrows = true) (k : Kind) (text : Str)
-    (hbad : ∀ p lines sT sR sW, parseModelInfo (splitLines text) {} [] = .ok (p, lines) → ¬ FileDenotes k p lines 0 sT sR sW) :
+    (hbad : ∀ p lines sT sR sW, parseModelInfo fl (splitLines text) {} [] = .ok (p, lines) → ¬ FileDenotes fl k p lines 0 sT sR sW) :
     ∃ e, parse fl k text = .error e := by
   cases h : parse fl k text with
   | error e => exact ⟨e, rfl⟩
@@ -180,8 +181,8 @@ theorem parser_rejects {fl : Flags} (hfl : fl.rowLenThrows = true) (k : Kind) (t
 /-- a line list whose first line starts with `T` but is no T statement of the grammar is not a well-formed file -/
 theorem not_FileDenotes_of_bad_T_line (k : Kind) (p : Pre) (l : Str) (rest : List Str) (sT sR sW : List Stmt)
     (hT : startsWith l ['T'] = true)
-    (hbad : ∀ s n, ¬ MatrixLine p.S p.A p.S p.amap p.smap p.smap l rest s n) :
-    ¬ FileDenotes k p (l :: rest) 0 sT sR sW := by
+    (hbad : ∀ s n, ¬ MatrixLine fl p.S p.A p.S p.amap p.smap p.smap l rest s n) :
+    ¬ FileDenotes fl k p (l :: rest) 0 sT sR sW := by
   intro h
   cases h with
   | tline _ hm _ => exact hbad _ _ hm
@@ -192,7 +193,7 @@ theorem not_FileDenotes_of_bad_T_line (k : Kind) (p : Pre) (l : Str) (rest : Lis
 /-- e.g. a wrong number of ':' : no statement is denoted -/
 theorem not_MatrixLine_of_bad_colon_count {D1 D2 D3 : Nat} {amap d1map d3map : IDMap} {l : Str} {rest : List Str}
     (h1 : countColon l ≠ 1) (h2 : countColon l ≠ 2) (h3 : countColon l ≠ 3) (s : Stmt) (n : Nat) :
-    ¬ MatrixLine D1 D2 D3 amap d1map d3map l rest s n := by
+    ¬ MatrixLine fl D1 D2 D3 amap d1map d3map l rest s n := by
   intro hm
   cases hm with
   | entry hc => exact h3 hc
@@ -203,8 +204,8 @@ theorem not_MatrixLine_of_bad_colon_count {D1 D2 D3 : Nat} {amap d1map d3map : I
 /-- what the source as extracted guarantees: acceptance implies well-formedness, or the flag is off -/
 theorem parser_rejects_as_extracted {k : Kind} {text : Str} {r : Parsed}
     (h : parse Gen.Dispatch.flags k text = .ok r) :
-    (∃ lines sT sR sW, parseModelInfo (splitLines text) {} [] = .ok (r.pre, lines) ∧
-        FileDenotes k r.pre lines 0 sT sR sW ∧
+    (∃ lines sT sR sW, parseModelInfo Gen.Dispatch.flags (splitLines text) {} [] = .ok (r.pre, lines) ∧
+        FileDenotes Gen.Dispatch.flags k r.pre lines 0 sT sR sW ∧
         ∀ d1 a d3, tableAt r.st.wT d1 a d3 = specAt sT r.pre.S r.pre.A r.pre.S d1 a d3) ∨
     Gen.Dispatch.rowLenThrows = false := by
   cases hfl : Gen.Dispatch.rowLenThrows with
@@ -219,7 +220,7 @@ theorem parser_rejects_as_extracted {k : Kind} {text : Str} {r : Parsed}
 
 /-- missing sizes: a preamble without states or actions (or, for a POMDP, observations) is rejected -/
 theorem parse_rejects_missing_sizes (fl : Flags) (k : Kind) (text : Str) (p : Pre) (lines : List Str)
-    (hpre : parseModelInfo (splitLines text) {} [] = .ok (p, lines))
+    (hpre : parseModelInfo fl (splitLines text) {} [] = .ok (p, lines))
     (h : p.S = 0 ∨ p.A = 0 ∨ (k = .pomdp ∧ p.O = 0)) : parse fl k text = .error .runtime := by
   unfold parse
   simp only [hpre, bind, Except.bind]
@@ -229,7 +230,7 @@ theorem parse_rejects_missing_sizes (fl : Flags) (k : Kind) (text : Str) (p : Pr
 
 /-- … and a text in which no line starts with `states` has S = 0 after the preamble pass (same for the others) -/
 theorem parseModelInfo_no_states (raws : List Str) (p p' : Pre) (acc lines : List Str)
-    (h : parseModelInfo raws p acc = .ok (p', lines))
+    (h : parseModelInfo fl raws p acc = .ok (p', lines))
     (hno : ∀ raw ∈ raws, startsWith (trim raw) kwStates = false) : p'.S = p.S := by
   induction raws generalizing p acc with
   | nil => simp only [parseModelInfo, pure_ok] at h; injection h with h1 _; rw [h1]
@@ -266,7 +267,7 @@ theorem parseModelInfo_no_states (raws : List Str) (p p' : Pre) (acc lines : Lis
 /-- is the (trimmed) line consumed by the preamble pass? -/
 def isPreambleLine (l : Str) : Bool := keywords.any (fun kw => startsWith l kw)
 
-theorem preLine_none_iff (p : Pre) (l : Str) : (preLine p l).isNone = !(isPreambleLine l) := by
+theorem preLine_none_iff (p : Pre) (l : Str) : (preLine fl p l).isNone = !(isPreambleLine l) := by
   unfold preLine isPreambleLine keywords
   simp only [List.any_cons, List.any_nil, Bool.or_false]
   by_cases h1 : startsWith l kwValues = true
@@ -285,7 +286,7 @@ theorem preLine_none_iff (p : Pre) (l : Str) : (preLine p l).isNone = !(isPreamb
     with a preamble keyword, in file order — statement lines and their continuation lines reach the main pass
     unchanged and adjacent, wherever the preamble lines sit (even between a header and its rows). -/
 theorem parseModelInfo_lines (raws : List Str) (p p' : Pre) (acc lines : List Str)
-    (h : parseModelInfo raws p acc = .ok (p', lines)) :
+    (h : parseModelInfo fl raws p acc = .ok (p', lines)) :
     lines = acc.reverse ++ (raws.map trim).filter (fun l => !l.isEmpty && !(isPreambleLine l)) := by
   induction raws generalizing p acc with
   | nil => simp only [parseModelInfo, pure_ok] at h; injection h with _ h2; simp [← h2]
@@ -301,13 +302,13 @@ theorem parseModelInfo_lines (raws : List Str) (p p' : Pre) (acc lines : List St
       · rename_i r hr
         obtain ⟨p1, _, h⟩ := bind_ok.1 h
         rw [ih p1 acc h]
-        have hn := preLine_none_iff p (trim raw)
+        have hn := preLine_none_iff (fl := fl) p (trim raw)
         rw [hr] at hn
         have hpl : isPreambleLine (trim raw) = true := by simpa using hn
         simp [List.filter_cons, hpl]
       · rename_i hr
         rw [ih p (trim raw :: acc) h]
-        have hn := preLine_none_iff p (trim raw)
+        have hn := preLine_none_iff (fl := fl) p (trim raw)
         rw [hr] at hn
         have hpl : isPreambleLine (trim raw) = false := by simpa using hn
         simp [List.filter_cons, he', hpl]
@@ -343,7 +344,7 @@ theorem processMatrix_rejects_bad_colon_count (fl : Flags) (D1 D2 D3 : Nat) (ama
 
 /-- wrong number of ':' on an R line -/
 theorem processReward_rejects_bad_colon_count (S A : Nat) (amap smap : IDMap) (line : Str) (h : countColon line ≠ 4) :
-    processReward S A amap smap line = .error .runtime := by
+    processReward fl S A amap smap line = .error .runtime := by
   unfold processReward
   split
   · rename_i h'; exact absurd h' h
@@ -351,15 +352,15 @@ theorem processReward_rejects_bad_colon_count (S A : Nat) (amap smap : IDMap) (l
 
 /-- unknown name: a token that is not `*`, not a declared name and does not start with a number -/
 theorem parseIndeces_rejects_unknown_name (tok : Str) (map : IDMap) (max : Nat) (e : Err)
-    (h1 : tok ≠ ['*']) (h2 : map.find tok = none) (h3 : stoul tok = .error e) :
-    parseIndeces tok map max = .error e := by
+    (h1 : tok ≠ ['*']) (h2 : map.find tok = none) (h3 : stoulS fl tok = .error e) :
+    parseIndeces fl tok map max = .error e := by
   have hb : (tok == ['*']) = false := by simpa using h1
   simp [parseIndeces, hb, h2, h3, bind, Except.bind]
 
 /-- out-of-range index -/
 theorem parseIndeces_rejects_out_of_range (tok : Str) (map : IDMap) (max v : Nat)
-    (h1 : tok ≠ ['*']) (h2 : map.find tok = none) (h3 : stoul tok = .ok v) (h4 : max ≤ v) :
-    parseIndeces tok map max = .error .runtime := by
+    (h1 : tok ≠ ['*']) (h2 : map.find tok = none) (h3 : stoulS fl tok = .ok v) (h4 : max ≤ v) :
+    parseIndeces fl tok map max = .error .runtime := by
   have hb : (tok == ['*']) = false := by simpa using h1
   have : v ≥ max := h4
   simp [parseIndeces, hb, h2, h3, bind, Except.bind, this]
@@ -368,13 +369,13 @@ theorem parseIndeces_rejects_out_of_range (tok : Str) (map : IDMap) (max v : Nat
     same cells (as long as the spelling is not itself a declared name) -/
 theorem name_number_interchangeable (name num : Str) (map : IDMap) (max i : Nat)
     (hn : name ≠ ['*']) (hm : num ≠ ['*']) (h1 : map.find name = some i) (h2 : map.find num = none)
-    (h3 : stoul num = .ok i) (h4 : i < max) :
-    parseIndeces name map max = parseIndeces num map max := by
+    (h3 : stoulS fl num = .ok i) (h4 : i < max) :
+    parseIndeces fl name map max = parseIndeces fl num map max := by
   rw [(parseIndeces_iff name map max [i]).2 ⟨.idx i, Or.inr ⟨hn, Or.inl ⟨i, h1, rfl⟩⟩, rfl⟩,
       (parseIndeces_iff num map max [i]).2 ⟨.idx i, Or.inr ⟨hm, Or.inr ⟨h2, i, h3, h4, rfl⟩⟩, rfl⟩]
 
 /-- the wildcard expands to all indices of the dimension -/
-theorem wildcard_expands (map : IDMap) (max : Nat) : parseIndeces ['*'] map max = .ok (List.range max) := by
+theorem wildcard_expands (map : IDMap) (max : Nat) : parseIndeces fl ['*'] map max = .ok (List.range max) := by
   simp [parseIndeces, pure, Except.pure]
 
 /-- two-colon form, wrong inline element count: rejected when the branch throws -/
@@ -395,11 +396,11 @@ theorem processMatrix_rejects_row_length {fl : Flags} (hfl : fl.rowLenThrows = t
 
 /-- The conversions are prefix-lenient, in the model as in the library: a token with trailing garbage is taken for the
     number it starts with, and a tab is not a value separator.  So "unknown names / wrong element counts are rejected" holds
-    only for tokens that do not start with a number (`parseIndeces_rejects_unknown_name` needs `stoul tok = error`).
+    only for tokens that do not start with a number (`parseIndeces_rejects_unknown_name` needs `stoulS fl tok = error`).
     Kernel-evaluated witnesses (tests on literals): `1x` resolves to index 1; `0.5<TAB>0.25 0.5` is a 2-vector. -/
 theorem trailing_garbage_counterexample :
-    (match parseIndeces "1x".toList [] 2 with | .ok l => l == [1] | .error _ => false) = true ∧
-    (match parseVector "0.5\t0.25 0.5".toList 2, parseVector "0.5 0.5".toList 2 with
+    (match parseIndeces ⟨true, true, true, false, false⟩ "1x".toList [] 2 with | .ok l => l == [1] | .error _ => false) = true ∧
+    (match parseVector ⟨true, true, true, false, false⟩ "0.5\t0.25 0.5".toList 2, parseVector ⟨true, true, true, false, false⟩ "0.5 0.5".toList 2 with
       | .ok a, .ok b => a == b
       | _, _ => false) = true := by
   decide +kernel
@@ -419,7 +420,7 @@ theorem find_lt {map : IDMap} {max : Nat} (h : IdxOK map max) {k : Str} {i : Nat
     · exact ih (fun a b hab => h a b (List.mem_cons_of_mem _ hab)) hf
 
 theorem Resolves_covers_lt {map : IDMap} {max : Nat} (hm : IdxOK map max) {tok : Str} {sel : Sel}
-    (hr : Resolves map max tok sel) {i : Nat} (hc : sel.covers max i = true) : i < max := by
+    (hr : Resolves fl map max tok sel) {i : Nat} (hc : sel.covers max i = true) : i < max := by
   rcases hr with ⟨_, rfl⟩ | ⟨_, ⟨j, hf, rfl⟩ | ⟨_, j, _, hlt, rfl⟩⟩
   · simpa [Sel.covers] using hc
   · have : i = j := by simpa [Sel.covers] using hc
@@ -430,7 +431,7 @@ theorem Resolves_covers_lt {map : IDMap} {max : Nat} (hm : IdxOK map max) {tok :
 /-- a well-formed T/O statement assigns only cells of the table -/
 theorem MatrixLine_assigns_in_bounds {D1 D2 D3 : Nat} {amap d1map d3map : IDMap} {line : Str} {rest : List Str}
     {s : Stmt} {n : Nat} (ha : IdxOK amap D2) (h1 : IdxOK d1map D1) (h3 : IdxOK d3map D3)
-    (hm : MatrixLine D1 D2 D3 amap d1map d3map line rest s n) {d1 a d3 : Nat} {v : XRat}
+    (hm : MatrixLine fl D1 D2 D3 amap d1map d3map line rest s n) {d1 a d3 : Nat} {v : XRat}
     (hv : s.assigns D1 D2 D3 d1 a d3 = some v) : d1 < D1 ∧ a < D2 ∧ d3 < D3 := by
   unfold Stmt.assigns at hv
   split at hv
@@ -473,7 +474,7 @@ theorem MatrixLine_assigns_in_bounds {D1 D2 D3 : Nat} {amap d1map d3map : IDMap}
   · cases hv
 
 theorem RewardLine_assigns_in_bounds {S A : Nat} {amap smap : IDMap} {line : Str} {s : Stmt}
-    (ha : IdxOK amap A) (hs : IdxOK smap S) (hm : RewardLine S A amap smap line s) {d1 a d3 : Nat} {v : XRat}
+    (ha : IdxOK amap A) (hs : IdxOK smap S) (hm : RewardLine fl S A amap smap line s) {d1 a d3 : Nat} {v : XRat}
     (hv : s.assigns S A S d1 a d3 = some v) : d1 < S ∧ a < A ∧ d3 < S := by
   unfold Stmt.assigns at hv
   split at hv
@@ -511,7 +512,7 @@ theorem processMatrix_writes_in_bounds {fl : Flags} {D1 D2 D3 : Nat} {amap d1map
   · exact absurd hw (hno w)
 
 theorem processReward_writes_in_bounds {S A : Nat} {amap smap : IDMap} {line : Str} {ws : List Write} {n : Nat}
-    (ha : IdxOK amap A) (hs : IdxOK smap S) (h : processReward S A amap smap line = .ok (ws, n)) : InB ws S A S := by
+    (ha : IdxOK amap A) (hs : IdxOK smap S) (h : processReward fl S A amap smap line = .ok (ws, n)) : InB ws S A S := by
   intro w hw
   obtain ⟨hn, s, hm⟩ := processReward_accepts_only_wellformed h
   subst hn
@@ -563,7 +564,7 @@ theorem run_writes_in_bounds (fl : Flags) (k : Kind) (p : Pre) (hp : PreOK p) (l
 
 /-! ### the preamble keeps name indices below the declared size -/
 
-theorem extractIDs_ok {line : Str} {n : Nat} {m : IDMap} (h : extractIDs line = .ok (n, m)) : IdxOK m n := by
+theorem extractIDs_ok {line : Str} {n : Nat} {m : IDMap} (h : extractIDs fl line = .ok (n, m)) : IdxOK m n := by
   unfold extractIDs at h
   obtain ⟨t1, _, h⟩ := bind_ok.1 h
   have named : ∀ (ids : List Str), IdxOK ((enumFrom 0 ids).foldl (fun m (p : Nat × Str) => m.set (trim p.2) p.1) []) ids.length := by
@@ -602,7 +603,7 @@ theorem extractIDs_ok {line : Str} {n : Nat} {m : IDMap} (h : extractIDs line = 
     exact named _
 
 theorem parseModelInfo_PreOK (raws : List Str) (p p' : Pre) (acc lines : List Str) (hp : PreOK p)
-    (h : parseModelInfo raws p acc = .ok (p', lines)) : PreOK p' := by
+    (h : parseModelInfo fl raws p acc = .ok (p', lines)) : PreOK p' := by
   induction raws generalizing p acc with
   | nil => simp only [parseModelInfo, pure_ok] at h; injection h with h1 _; rw [← h1]; exact hp
   | cons raw rest ih =>
@@ -701,10 +702,10 @@ theorem writes_offset_lt_allocated {fl : Flags} (hfl : fl.sizeGuard = true) {k :
     accepted, `T: 0 : 1 : 1 0.5` passes the index check, and the write lands at offset 2^32+1 of an allocation of
     2^64 mod 2^64 = 0 doubles.  (Kernel evaluation on the literal; a test of the model, labelled as such.) -/
 theorem writes_offset_lt_allocated_counterexample :
-    (match parse ⟨false, false, false⟩ .mdp "states: 4294967296\nactions: 1\nT: 0 : 1 : 1 0.5\n".toList with
+    (match parse ⟨false, false, false, false, false⟩ .mdp "states: 4294967296\nactions: 1\nT: 0 : 1 : 1 0.5\n".toList with
      | .ok r => r.st.wT.any (fun w => decide (allocated r.pre.S r.pre.A r.pre.S ≤ offset r.pre.A r.pre.S w))
      | .error _ => false) = true ∧
-    (parse ⟨false, true, false⟩ .mdp "states: 4294967296\nactions: 1\nT: 0 : 1 : 1 0.5\n".toList).toOption.isSome = false := by
+    (parse ⟨false, true, false, false, false⟩ .mdp "states: 4294967296\nactions: 1\nT: 0 : 1 : 1 0.5\n".toList).toOption.isSome = false := by
   decide +kernel
 
 /-- what the source as extracted guarantees for the storage clause -/
@@ -795,7 +796,7 @@ theorem discount_valid_of_guard {fl : Flags} (hfl : fl.nanDiscountRejected = tru
     exact ⟨q, rfl, Rat.not_le.1 h2, Rat.not_lt.1 h3⟩
 
 /-- without it NaN is let through (the source as it is; DESIGN §12 #1) -/
-theorem discount_nan_counterexample : discountRejected ⟨true, true, false⟩ .nan = false := by decide
+theorem discount_nan_counterexample : discountRejected ⟨true, true, false, false, false⟩ .nan = false := by decide
 
 /-- every cell row of an accepted model is a probability vector up to the library tolerance -/
 theorem parseCassandra_rows_valid {fl : Flags} {tol : Rat} {k : Kind} {text : Str} {r : Parsed}
@@ -812,8 +813,8 @@ theorem parseCassandra_rows_valid {fl : Flags} {tol : Rat} {k : Kind} {text : St
     (and observation) row is a probability vector up to the library tolerance, and the discount passed `setDiscount`. -/
 theorem parseCassandra_sound {fl : Flags} (hfl : fl.rowLenThrows = true) {tol : Rat} {k : Kind} {text : Str} {r : Parsed}
     (h : parseCassandra fl tol k text = .ok r) :
-    (∃ lines sT sR sW, parseModelInfo (splitLines text) {} [] = .ok (r.pre, lines) ∧
-      FileDenotes k r.pre lines 0 sT sR sW ∧
+    (∃ lines sT sR sW, parseModelInfo fl (splitLines text) {} [] = .ok (r.pre, lines) ∧
+      FileDenotes fl k r.pre lines 0 sT sR sW ∧
       ∀ d1 a d3,
         tableAt r.st.wT d1 a d3 = specAt sT r.pre.S r.pre.A r.pre.S d1 a d3 ∧
         tableAt r.st.wR d1 a d3 = specAt sR r.pre.S r.pre.A r.pre.S d1 a d3 ∧
@@ -831,27 +832,27 @@ theorem parseCassandra_sound {fl : Flags} (hfl : fl.rowLenThrows = true) {tol : 
 def sampleText : Str :=
   "discount: 0.5\nstates: a b\nactions: go\nT: go\n0.5 0.5\n0 1\nT: * : b 0.25 0.75\nR: go : a : * : * -1\n".toList
 
-example : (match parse ⟨true, true, true⟩ .mdp sampleText with
+example : (match parse ⟨true, true, true, false, false⟩ .mdp sampleText with
     | .ok r => r.pre.S == 2 && r.pre.A == 1 &&
         tableList r.st.wT 2 1 2 == [.fin (1/2), .fin (1/2), .fin (1/4), .fin (3/4)] &&
         tableList r.st.wR 2 1 2 == [.fin (-1), .fin (-1), .fin 0, .fin 0]
     | .error _ => false) = true := by decide +kernel
 
 /-- `FileDenotes` (the hypothesis of `parser_refines_spec`) is inhabited by the sample file -/
-example : ∃ p lines sT sR sW, parseModelInfo (splitLines sampleText) {} [] = .ok (p, lines) ∧ FileDenotes .mdp p lines 0 sT sR sW := by
-  have h : (parse ⟨true, true, true⟩ .mdp sampleText).toOption.isSome = true := by decide +kernel
-  rcases h' : parse ⟨true, true, true⟩ .mdp sampleText with e | r
+example : ∃ p lines sT sR sW, parseModelInfo ⟨true, true, true, false, false⟩ (splitLines sampleText) {} [] = .ok (p, lines) ∧ FileDenotes ⟨true, true, true, false, false⟩ .mdp p lines 0 sT sR sW := by
+  have h : (parse ⟨true, true, true, false, false⟩ .mdp sampleText).toOption.isSome = true := by decide +kernel
+  rcases h' : parse ⟨true, true, true, false, false⟩ .mdp sampleText with e | r
   · rw [h'] at h; cases h
-  · obtain ⟨lines, sT, sR, sW, hpre, _, _, _, hfile, _⟩ := parser_accepts_only_wellformed (fl := ⟨true, true, true⟩) rfl h'
+  · obtain ⟨lines, sT, sR, sW, hpre, _, _, _, hfile, _⟩ := parser_accepts_only_wellformed (fl := ⟨true, true, true, false, false⟩) rfl h'
     exact ⟨r.pre, lines, sT, sR, sW, hpre, hfile⟩
 
 /-- the character-level theorem applies to a concrete line with an unusual layout (hypotheses satisfiable):
     `T :act0:  * : s1    0.25` -/
-example : ∃ v, MatrixLine 3 2 3 [("act0".toList, 0)] [("s1".toList, 1)] [("s1".toList, 1)]
+example : ∃ v, MatrixLine ⟨true, true, true, false, false⟩ 3 2 3 [("act0".toList, 0)] [("s1".toList, 1)] [("s1".toList, 1)]
     ("T".toList ++ renderToks [(" :".toList, "act0".toList), (":  ".toList, "*".toList), (" : ".toList, "s1".toList), ("    ".toList, "0.25".toList)] " ".toList)
     [] ⟨.idx 0, .all, .entry (.idx 1) v⟩ 0 := by
-  have hv : (stod "0.25".toList).toOption.isSome = true := by decide +kernel
-  rcases hs : stod "0.25".toList with e | v
+  have hv : (stodS ⟨true, true, true, false, false⟩ "0.25".toList).toOption.isSome = true := by decide +kernel
+  rcases hs : stodS ⟨true, true, true, false, false⟩ "0.25".toList with e | v
   · rw [hs] at hv; cases hv
   · refine ⟨v, entry_line_denotes 3 2 3 _ _ _ [] _ _ _ _ _ _ _ _ _ _ (.idx 0) .all (.idx 1) v ?_ ?_ ?_ ?_ ?_ ?_ ?_ ?_ ?_ ?_ ?_ ?_ ?_ hs⟩
     · exact ⟨by decide, by decide⟩
@@ -869,11 +870,11 @@ example : ∃ v, MatrixLine 3 2 3 [("act0".toList, 0)] [("s1".toList, 1)] [("s1"
     · exact Or.inr ⟨by decide, Or.inl ⟨1, by decide, rfl⟩⟩
 
 /-- `MatrixLine` is inhabited by a concrete wildcard/name line -/
-example : ∃ s, MatrixLine 2 1 2 [("go".toList, 0)] [("b".toList, 1), ("a".toList, 0)] [("b".toList, 1), ("a".toList, 0)]
+example : ∃ s, MatrixLine ⟨true, true, true, false, false⟩ 2 1 2 [("go".toList, 0)] [("b".toList, 1), ("a".toList, 0)] [("b".toList, 1), ("a".toList, 0)]
     "T: * : b 0.25 0.75".toList [] s 0 := by
-  have h : (processMatrix ⟨true, true, true⟩ 2 1 2 [("go".toList, 0)] [("b".toList, 1), ("a".toList, 0)] [("b".toList, 1), ("a".toList, 0)]
+  have h : (processMatrix ⟨true, true, true, false, false⟩ 2 1 2 [("go".toList, 0)] [("b".toList, 1), ("a".toList, 0)] [("b".toList, 1), ("a".toList, 0)]
       "T: * : b 0.25 0.75".toList []).toOption.map (·.2) = some 0 := by decide +kernel
-  rcases h' : processMatrix ⟨true, true, true⟩ 2 1 2 [("go".toList, 0)] [("b".toList, 1), ("a".toList, 0)] [("b".toList, 1), ("a".toList, 0)]
+  rcases h' : processMatrix ⟨true, true, true, false, false⟩ 2 1 2 [("go".toList, 0)] [("b".toList, 1), ("a".toList, 0)] [("b".toList, 1), ("a".toList, 0)]
       "T: * : b 0.25 0.75".toList [] with e | ⟨ws, n⟩
   · rw [h'] at h; cases h
   · rw [h'] at h
